@@ -8,7 +8,7 @@ SPEC = {
     "rule": "case 0 = the two length-0 panics + 256 `sweep` ops = all 2^16 pairs of length 1; then `sweep` ops over two-byte "
             "strings, each = one `a` against all 2^16 `b` (quick 16 values of `a`, thorough 1024; digest = verdict counts + "
             "order-sensitive checksum, compared with the model; every single pair is also judged by the harness oracle "
-            "`==` / `Ord::cmp` on the slices); then `exh2 a0` ops: ALL pairs of length 2 whose first string starts with a0 judged on the implementation by the slice oracle only (quick 4 values of a0 = 2^26 pairs, thorough all 256 = all 2^32 pairs); then random pairs of length 1..257 biased to long common prefixes with "
+            "`==` / `Ord::cmp` on the slices); then `exh2 a0` ops: ALL pairs of length 2 whose first string starts with a0 judged on the implementation by the slice oracle only (quick 4 values of a0 = 2^26 pairs, thorough all 256 = all 2^32 pairs); then five cases of long buffers (65535, 65536, 65537, 65552, 131073 bytes) differing only at index 0 or before len-65536 (a narrowed length counter wraps there); then random pairs of length 1..257 biased to long common prefixes with "
             "adversarial tails. distinct = sha1 of op text; non-trivial = the case contains a strict verdict (lt/gt) and a "
             "pair that differs only after a common prefix",
     "trusted_base": ["Model/Memsec.lean is a hand transcription of memeq/memcmp (i32 = BitVec 32 with arithmetic shift; raw "
